@@ -131,6 +131,10 @@ func buildWitnessMode(o *observation, an *analysis, early bool) *witness {
 		w.skip = "panic: " + p
 		return w
 	}
+	if o.Spec.Batch {
+		w.skip = "SendAndClear batches are outside the model (decided on the received streams only)"
+		return w
+	}
 	minInv := int64(1 << 62)
 	for _, s := range o.Sends {
 		w.scaled[s.Sid] = scaledLen(s.Len)
